@@ -204,7 +204,7 @@ Section Streams.
   | COk                                   (* the schedule was carried out to its end *)
   | CStopped (k : N) (why : sfinal).      (* the poll of stream k panicked / did not return *)
 
-  Fixpoint set_nth {A} (n : nat) (x : A) (l : list A) : list A :=
+  Fixpoint set_nth {A} (n : nat) (x : A) (l : list A) {struct l} : list A :=
     match l with
     | [] => []
     | y :: l' => match n with O => x :: l' | S n' => y :: set_nth n' x l' end
